@@ -557,7 +557,7 @@ impl<T: AsRef<[u8]>> UdpNhcPacket<T> {
                 let data = self.buffer.as_ref();
                 let idx = self.nhc_fields_start();
 
-                0xf000 + data[idx] as u16
+                0xf000 + data[idx + 2] as u16
             }
             0b10 => {
                 // The full 16 bits are carried in-line.
@@ -571,7 +571,7 @@ impl<T: AsRef<[u8]>> UdpNhcPacket<T> {
                 let data = self.buffer.as_ref();
                 let start = self.nhc_fields_start();
 
-                0xf0b0 + (data[start] & 0xff) as u16
+                0xf0b0 + (data[start] & 0x0f) as u16
             }
             _ => unreachable!(),
         }
@@ -643,7 +643,7 @@ impl<T: AsRef<[u8]> + AsMut<[u8]>> UdpNhcPacket<T> {
                 // We can compress both the source and destination ports.
                 self.set_ports_field(0b11);
                 let data = self.buffer.as_mut();
-                data[idx] = (((src_port - 0xf0b0) as u8) << 4) & ((dst_port - 0xf0b0) as u8);
+                data[idx] = (((src_port - 0xf0b0) as u8) << 4) | ((dst_port - 0xf0b0) as u8);
             }
             (0xf000..=0xf0ff, _) => {
                 // We can compress the source port, but not the destination port.
